@@ -15,6 +15,7 @@ from ..common import Ctx
 from .. import pvlib, learncheck as lc
 
 LEVEL = "proof"
+DUMMIES = ("|||START|||", "|||END|||", "|||DUMMY|||", "DUMMY_BREAK")
 THEOREMS = [
     "O2P.Graph.isTopo_acyclic",
     "O2P.Graph.cycle_in_one_part",
@@ -95,7 +96,7 @@ def run(ctx: Ctx) -> None:
         for what, q in level_requests(rp["nest"], rp["input_edges"], "top level"):
             checks.append((i, what, q))
         leaves = flatten(rp["nest"])
-        inputs = [x for x in rp["input_nodes"] if "|||" not in x]
+        inputs = [x for x in rp["input_nodes"] if x not in DUMMIES]
         checks.append((i, f"events across the nesting {sorted(leaves)} are not the input's {sorted(inputs)}, each once",
                        {"op": "graph.check", "kind": "once", "leaves": leaves, "inputs": inputs}))
     answers = pvlib.lean([q for _, _, q in checks]) if checks else []
@@ -132,7 +133,7 @@ def replay(data: dict[str, Any]) -> int:
         return 1
     checks = level_requests(rp["nest"], rp["input_edges"], "top level")
     leaves = flatten(rp["nest"])
-    inputs = [x for x in rp["input_nodes"] if "|||" not in x]
+    inputs = [x for x in rp["input_nodes"] if x not in DUMMIES]
     checks.append(("exactly once", {"op": "graph.check", "kind": "once", "leaves": leaves, "inputs": inputs}))
     ans = pvlib.lean([q for _, q in checks])
     rc = 0
